@@ -103,6 +103,8 @@ v("se-trial-extent-one-short-for-slices", S, "order.stop if isinstance(order, sl
 v("ok-se-trial-extent-generous", S, "order.stop if isinstance(order, slice) else np.max(order, initial=0) + 1", "order.stop + 1 if isinstance(order, slice) else np.max(order, initial=0) + 2", [])
 # --------------------------------------------------------------------------- block_diagonalization.py
 B = "block_diagonalization"
+v("bd-symbolic-denominators-resized", B, "                np.broadcast_to(\n                    1 / (array_eigs_a.reshape(-1, 1) - array_eigs_b), Y.shape\n                )", "                np.resize(1 / (array_eigs_a.reshape(-1, 1) - array_eigs_b), Y.shape)", ["C01", "C16"],
+  "fixed defect F11: np.resize tiles the column of denominators when the column block has scalar zero energies")
 v("bd-symbols-sorted-on-the-way", B, "        return _sympy_to_BlockSeries(\n            operator,\n            symbols,\n", "        return _sympy_to_BlockSeries(\n            operator,\n            sorted(symbols, key=str),\n", ["C14", "C13"],
   "seed C14-r7: the order of the caller's symbols is API")
 v("bd-symbols-as-list", B, "        return _sympy_to_BlockSeries(\n            operator,\n            symbols,\n", "        return _sympy_to_BlockSeries(\n            operator,\n            list(symbols),\n", [],
